@@ -111,6 +111,13 @@ func VerifC11Setup(dir, mode string) (info *VerifC11Info, err error) {
 		mode = "boot"
 	}
 
+	// "boot-plain-hash": as "boot", but the stored password of the user is not
+	// a bcrypt hash (the password itself, as a hand-edited file may hold it).
+	plainHash := mode == "boot-plain-hash"
+	if plainHash {
+		mode = "boot"
+	}
+
 	if mode != "boot" && mode != "install" {
 		return nil, fmt.Errorf("bad mode %q", mode)
 	}
@@ -125,6 +132,9 @@ func VerifC11Setup(dir, mode string) (info *VerifC11Info, err error) {
 	}
 
 	user := webUser{Name: VerifC11User, PasswordHash: string(hash)}
+	if plainHash {
+		user.PasswordHash = VerifC11Password
+	}
 
 	// setupContext.
 	globalContext.workDir = dir
